@@ -339,6 +339,26 @@ func parseGroup(mp *msgParser, tags []Tag) {
 			mp.foundTrailer = true
 			break
 		} else {
+			// Found a field outside the innermost group.
+			// Did this tag occur after a nested group and belongs to one of the enclosing groups.
+			inEnclosingGroup := false
+			for len(tags) > 1 {
+				tags = tags[:len(tags)-1]
+				fields = getGroupFields(mp.msg, tags, mp.appDataDictionary)
+				if isGroupMember(mp.parsedFieldBytes.tag, fields) {
+					inEnclosingGroup = true
+					break
+				}
+			}
+			if inEnclosingGroup {
+				// Add the field member to the group and continue parsing the enclosing group.
+				dm = append(dm, *mp.parsedFieldBytes)
+				if isNumInGroupField(mp.msg, append(tags, mp.parsedFieldBytes.tag), mp.appDataDictionary) {
+					tags = append(tags, mp.parsedFieldBytes.tag)
+					fields = getGroupFields(mp.msg, tags, mp.appDataDictionary)
+				}
+				continue
+			}
 			// Found a body field outside the group.
 			searchTags := []Tag{mp.parsedFieldBytes.tag}
 			// Is this a new group not inside the existing group.
@@ -347,17 +367,7 @@ func parseGroup(mp *msgParser, tags []Tag) {
 				mp.msg.Body.add(dm)
 				// Cycle again with the new group.
 				dm = mp.msg.fields[mp.fieldIndex : mp.fieldIndex+1]
-				fields = getGroupFields(mp.msg, searchTags, mp.appDataDictionary)
-				continue
-			}
-			if len(tags) > 1 {
-				searchTags = tags[:len(tags)-1]
-			}
-			// Did this tag occur after a nested group and belongs to the parent group.
-			if isNumInGroupField(mp.msg, searchTags, mp.appDataDictionary) {
-				// Add the field member to the group.
-				dm = append(dm, *mp.parsedFieldBytes)
-				// Continue parsing the parent group.
+				tags = searchTags
 				fields = getGroupFields(mp.msg, searchTags, mp.appDataDictionary)
 				continue
 			}
